@@ -258,3 +258,252 @@ Proof.
   intros D w f n l l' rho Hl Hl' Hn. apply (regroup_invariant D w _ _ l l' rho n Hl Hl'); [|exact Hn].
   intro a. apply rmul_cnt.
 Qed.
+
+(* ------------------------------------------------------------------ energy, wavelength, velocity *)
+Section Conversions.
+  Variables h e m_n u : R.
+  Let EFr := energy_factor h e m_n u.
+  Let VFr := velocity_factor h e m_n u.
+
+  (* E lambda^2 is the constant ENERGY_FACTOR *)
+  Theorem energy_times_wavelength_squared : forall lam, lam <> 0 ->
+    energy_of_wavelength h e m_n u lam * (lam * lam) = EFr.
+  Proof. intros lam H. unfold energy_of_wavelength. fold EFr. field. exact H. Qed.
+  Theorem wavelength_squared_times_energy : forall E, 0 < E -> 0 <= EFr ->
+    wavelength_of_energy h e m_n u E * wavelength_of_energy h e m_n u E * E = EFr.
+  Proof.
+    intros E HE HEF. unfold wavelength_of_energy. fold EFr. rewrite sqrt_sqrt.
+    - field. lra.
+    - apply Rmult_le_pos; [exact HEF|]. left. apply Rinv_0_lt_compat. exact HE.
+  Qed.
+  (* v lambda is the constant VELOCITY_FACTOR *)
+  Theorem velocity_times_wavelength : forall v, v <> 0 ->
+    v * wavelength_of_velocity h e m_n u v = VFr.
+  Proof. intros v H. unfold wavelength_of_velocity. fold VFr. field. exact H. Qed.
+  (* energy -> wavelength -> energy is the identity *)
+  Theorem energy_round_trip : forall E, 0 < E -> 0 < EFr ->
+    energy_of_wavelength h e m_n u (wavelength_of_energy h e m_n u E) = E.
+  Proof.
+    intros E HE HEF. unfold energy_of_wavelength, wavelength_of_energy. fold EFr.
+    rewrite sqrt_sqrt.
+    - field. split; lra.
+    - left. apply Rdiv_lt_0_compat; assumption.
+  Qed.
+  (* wavelength -> energy -> wavelength as well *)
+  Theorem wavelength_round_trip : forall lam, 0 < lam -> 0 < EFr ->
+    wavelength_of_energy h e m_n u (energy_of_wavelength h e m_n u lam) = lam.
+  Proof.
+    intros lam Hl HEF. unfold energy_of_wavelength, wavelength_of_energy. fold EFr.
+    replace (EFr / (EFr / (lam * lam))) with (lam * lam) by (field; split; lra).
+    apply sqrt_square. lra.
+  Qed.
+  (* E = 1/2 m v^2 with lambda = h/(m v): the two factors are consistent, VF^2 = 2 EF . 1e-3 / (m_n u e) . 1 ...
+     stated without units: EF = VF^2 (m_n u) / (2 e) * 1000 *)
+  Theorem factors_consistent : e <> 0 -> m_n <> 0 -> u <> 0 ->
+    EFr = VFr * VFr * (m_n * u) / (2 * e) * 1000.
+  Proof. intros He Hm Hu. unfold EFr, VFr, energy_factor, velocity_factor. field. repeat split; assumption. Qed.
+End Conversions.
+
+(* the constants of the library *)
+Definition h_R := Q2R H_Q.  Definition e_R := Q2R EV_Q.  Definition mn_R := Q2R MN_Q.  Definition u_R := Q2R U_Q.
+
+Lemma consts_nonzero_c : (negb (Qeq_bool MN_Q 0) && negb (Qeq_bool U_Q 0) && negb (Qeq_bool EV_Q 0))%bool = true.
+Proof. vm_compute. reflexivity. Qed.
+
+Lemma Q2R_neq0 : forall q, Qeq_bool q 0 = false -> Q2R q <> 0.
+Proof.
+  intros q H E. assert (q == 0)%Q. { apply eqR_Qeq. rewrite E. symmetry. apply RMicromega.Q2R_0. }
+  apply Qeq_bool_iff in H0. congruence.
+Qed.
+
+Lemma Q2R_inject_pow10 : forall n, Q2R (inject_Z (10 ^ Z.of_nat n)) = 10 ^ n.
+Proof.
+  intro n. unfold Q2R, inject_Z. cbn [Qnum Qden]. rewrite <- pow_IZR. lra.
+Qed.
+
+(* the rational ENERGY_FACTOR / VELOCITY_FACTOR are the documented expressions over R *)
+Theorem EF_R_is_energy_factor : EF_R = energy_factor h_R e_R mn_R u_R.
+Proof.
+  pose proof consts_nonzero_c as H. apply andb_prop in H. destruct H as [H H3]. apply andb_prop in H. destruct H as [H1 H2].
+  apply negb_true_iff in H1, H2, H3. apply Q2R_neq0 in H1, H2, H3.
+  unfold EF_R, EF_spec. rewrite Q2R_Qred. unfold energy_factor_Q, energy_factor, h_R, e_R, mn_R, u_R.
+  rewrite !Q2R_mult, Q2R_div', !Q2R_mult.
+  - change (10 ^ 20)%Z with (10 ^ Z.of_nat 20)%Z. rewrite Q2R_inject_pow10.
+    replace (Q2R 2) with 2 by (unfold Q2R; cbn [Qnum Qden]; lra).
+    replace (Q2R 1000) with 1000 by (unfold Q2R; cbn [Qnum Qden]; lra). reflexivity.
+  - rewrite !Q2R_mult. replace (Q2R 2) with 2 by (unfold Q2R; cbn [Qnum Qden]; lra).
+    apply Rmult_integral_contrapositive_currified; [lra|].
+    apply Rmult_integral_contrapositive_currified; assumption.
+Qed.
+Theorem VF_R_is_velocity_factor : Q2R VF_spec = velocity_factor h_R e_R mn_R u_R.
+Proof.
+  pose proof consts_nonzero_c as H. apply andb_prop in H. destruct H as [H H3]. apply andb_prop in H. destruct H as [H1 H2].
+  apply negb_true_iff in H1, H2, H3. apply Q2R_neq0 in H1, H2, H3.
+  unfold VF_spec. rewrite Q2R_Qred. unfold velocity_factor_Q, velocity_factor, h_R, e_R, mn_R, u_R.
+  rewrite !Q2R_mult, Q2R_div', !Q2R_mult.
+  - change (10 ^ 10)%Z with (10 ^ Z.of_nat 10)%Z. rewrite Q2R_inject_pow10. reflexivity.
+  - rewrite !Q2R_mult. apply Rmult_integral_contrapositive_currified; assumption.
+Qed.
+
+(* the wavelength the model computes for energy= is the documented sqrt(h^2/(2 m_n E)) *)
+Theorem wl_R_energy : forall en, wl_R (WEn en) = wavelength_of_energy h_R e_R mn_R u_R (Q2R en).
+Proof. intro en. unfold wl_R, wavelength_of_energy. rewrite EF_R_is_energy_factor. reflexivity. Qed.
+
+(* model: neutron_energy(neutron_wavelength(E)) = E, E lambda^2 = ENERGY_FACTOR, v lambda = VELOCITY_FACTOR *)
+Theorem model_energy_round_trip : forall en, (0 < en)%Q ->
+  ev (neutron_energy_E (neutron_wavelength_E en)) = Q2R en.
+Proof.
+  intros en H. unfold neutron_energy_E, neutron_wavelength_E. cbn [evalR]. unfold powerRZ'.
+  change (Pos.to_nat 2) with 2%nat. rewrite !ev_cq, Q2R_EF. apply Q2R_pos in H. pose proof EF_R_pos.
+  rewrite <- Rsqr_pow2. unfold Rsqr. rewrite sqrt_sqrt.
+  - field. split; lra.
+  - left. apply Rdiv_lt_0_compat; assumption.
+Qed.
+Theorem model_velocity_times_wavelength : forall v, ~ (v == 0)%Q ->
+  Q2R v * ev (neutron_wavelength_from_velocity_E v) = Q2R VF_spec.
+Proof.
+  intros v H. unfold neutron_wavelength_from_velocity_E. cbn [evalR]. rewrite !ev_cq.
+  rewrite (Qeq_eqR _ _ VF_is_spec). field.
+  intro E. apply H. apply eqR_Qeq. rewrite E. symmetry. apply RMicromega.Q2R_0.
+Qed.
+
+(* the documented anchor: 1.798 A = 25.3 meV = 2200 m/s *)
+Lemma anchor_c :
+  (Qle_bool (Qabs (EF_spec / ((1798 # 1000) * (1798 # 1000)) - (253 # 10))) (5 # 100)
+   && Qle_bool (Qabs (VF_spec / (1798 # 1000) - 2200)) 1)%bool = true.
+Proof. vm_compute. reflexivity. Qed.
+
+Lemma Q2R_Qabs : forall q, Q2R (Qabs q) = Rabs (Q2R q).
+Proof.
+  intro q. destruct (Qlt_le_dec q 0) as [H|H].
+  - rewrite Qabs_neg by (apply Qlt_le_weak; exact H). rewrite Q2R_opp.
+    apply Qlt_Rlt in H. rewrite RMicromega.Q2R_0 in H. rewrite Rabs_left; lra.
+  - rewrite Qabs_pos by exact H. apply Qle_Rle in H. rewrite RMicromega.Q2R_0 in H. rewrite Rabs_right; lra.
+Qed.
+
+Theorem anchor :
+  Rabs (energy_of_wavelength h_R e_R mn_R u_R lambda_0 - 253 / 10) <= 5 / 100 /\
+  Rabs (velocity_of_wavelength h_R e_R mn_R u_R lambda_0 - 2200) <= 1.
+Proof.
+  pose proof anchor_c as H. apply andb_prop in H. destruct H as [H1 H2].
+  apply Qle_bool_Rle in H1, H2. rewrite Q2R_Qabs in H1, H2.
+  assert (Hl : Q2R (1798 # 1000) = lambda_0) by (unfold lambda_0, Q2R; cbn [Qnum Qden]; lra).
+  assert (Hl0 : lambda_0 <> 0) by (unfold lambda_0; lra).
+  split.
+  - unfold energy_of_wavelength. rewrite <- EF_R_is_energy_factor. unfold EF_R.
+    rewrite Q2R_minus, Q2R_div', Q2R_mult, Hl in H1.
+    + replace (Q2R (253 # 10)) with (253 / 10) in H1 by (unfold Q2R; cbn [Qnum Qden]; lra).
+      replace (Q2R (5 # 100)) with (5 / 100) in H1 by (unfold Q2R; cbn [Qnum Qden]; lra). exact H1.
+    + rewrite Q2R_mult, Hl. apply Rmult_integral_contrapositive_currified; assumption.
+  - unfold velocity_of_wavelength. rewrite <- VF_R_is_velocity_factor.
+    rewrite Q2R_minus, Q2R_div', Hl in H2 by (rewrite Hl; exact Hl0).
+    replace (Q2R 2200) with 2200 in H2 by (unfold Q2R; cbn [Qnum Qden]; lra).
+    replace (Q2R 1) with 1 in H2 by (unfold Q2R; cbn [Qnum Qden]; lra). exact H2.
+Qed.
+
+(* energy= and the equivalent wavelength= give the same result: the documented quantities depend on
+   the call's wavelength argument only through the wavelength itself *)
+Theorem energy_equals_wavelength : forall D w w' d,
+  wl_R w = wl_R w' -> tab_cell D w d = tab_cell D w' d.
+Proof.
+  intros D w w' d H. unfold tab_cell. f_equal. apply map_ext. intro p. unfold tab_comp. rewrite H. reflexivity.
+Qed.
+
+(* ------------------------------------------------------------------ non-negativity *)
+Theorem calc_nonneg : forall n lam bre bim ss, 0 <= n -> 0 <= lam -> 0 <= ss ->
+  match calc_R n lam bre bim ss with
+  | [re; im; inc; coh; ab; ixs; pen] => 0 <= im /\ 0 <= inc /\ 0 <= coh /\ 0 <= ab /\ 0 <= ixs /\ 0 <= pen
+  | _ => False
+  end.
+Proof.
+  intros n lam bre bim ss Hn Hl Hs. unfold calc_R.
+  assert (Hpi : 0 < PI) by apply PI_RGT_0.
+  assert (Hsq : 0 <= sqrt (bre * bre + bim * bim) * sqrt (bre * bre + bim * bim)).
+  { apply Rmult_le_pos; apply sqrt_pos. }
+  assert (Hab : 0 <= Rabs bim) by apply Rabs_pos.
+  repeat split.
+  - apply Rabs_pos.
+  - apply Rmult_le_pos; [|lra]. apply Rmult_le_pos; [exact Hn|apply sqrt_pos].
+  - apply Rmult_le_pos; [exact Hn|]. apply Rmult_le_pos; [|exact Hsq]. apply Rmult_le_pos; [lra|lra].
+  - apply Rmult_le_pos; [exact Hn|]. apply Rmult_le_pos; [|exact Hl]. apply Rmult_le_pos; [lra|exact Hab].
+  - apply Rmult_le_pos; [exact Hn|]. apply Rmax_r.
+  - unfold Rdiv. rewrite Rmult_1_l.
+    assert (Hd : 0 <= n * (2000 * Rabs bim * lam) + n * ss).
+    { apply Rplus_le_le_0_compat; apply Rmult_le_pos; try assumption.
+      apply Rmult_le_pos; [|exact Hl]. apply Rmult_le_pos; [lra|exact Hab]. }
+    destruct Hd as [Hd|Hd]; [left; apply Rinv_0_lt_compat; exact Hd|]. rewrite <- Hd, Rinv_0. lra.
+Qed.
+
+(* on whole results of the model: imaginary and incoherent SLD, the three cross sections and the
+   penetration depth are never negative *)
+Theorem outputs_nonneg : forall D d rho w o ps,
+  wl_pos w -> (0 < rho)%Q -> cell_ok D d -> compound_at D d rho w = Some (o, ps) ->
+  0 <= ev (o_im o) /\ 0 <= ev (o_inc o) /\ 0 <= ev (o_coh o) /\ 0 <= ev (o_abs o) /\ 0 <= ev (o_ixs o)
+  /\ 0 <= ev (o_pen o).
+Proof.
+  intros D d rho w o ps Hw Hrho Hcell H.
+  destruct (compound_refines D d rho w o ps Hw Hrho Hcell H) as (l & Hl & Heq).
+  unfold compound_at in H. destruct (all_some (map (atom_piece D w) d)) as [ps'|]; [|discriminate].
+  cbn [bind] in H. inversion H; subst ps'. clear H. rewrite H1 in *.
+  unfold calc5, compound_parts in H1. rewrite <- H1 in Heq.
+  pose proof (ev_calculate_scattering) as Hc.
+  match type of H1 with calculate_scattering ?N ?lam ?bre ?bim ?ss = _ =>
+    pose proof (Hc N lam bre bim ss) as Hc'; rewrite H1 in Hc' end.
+  (* signs from the spec side *)
+  rewrite Hc' in Heq. clear Hc Hc' H1.
+  assert (Hlam : 0 < wl_R w) by (apply (wl_R_pos EF_R_pos); exact Hw).
+  destruct Hcell as [Hne Hd].
+  assert (Hfacts : forall c, In c l -> 0 < c_n c /\ 0 < c_m c /\ c_im c <= 0 /\ 0 <= c_ss c).
+  { intros c Hin. destruct (all_some_in (tab_comp D w) d l Hl c Hin) as (p & Hp & Hc).
+    destruct (Hd p Hp) as (Hcnt & Hmass & Hok).
+    destruct (tab_comp_facts D w p c Hok Hc) as (E1 & E2 & E3 & E4).
+    rewrite E1, E2. repeat split; [apply Q2R_pos; exact Hcnt|apply Q2R_pos; exact Hmass|exact E3|exact E4]. }
+  assert (Hlne : l <> []).
+  { intro E. apply Hne. pose proof (all_some_length _ _ _ Hl) as Hlen. rewrite E in Hlen.
+    destruct d; [reflexivity|discriminate]. }
+  assert (Hn : 0 < n_total l).
+  { unfold n_total. apply sum_pos; [exact Hlne|]. intros c Hin. exact (proj1 (Hfacts c Hin)). }
+  assert (Hm : 0 < molar_mass l).
+  { unfold molar_mass. apply sum_pos; [exact Hlne|]. intros c Hin.
+    destruct (Hfacts c Hin) as (H1 & H2 & _). apply Rmult_lt_0_compat; assumption. }
+  assert (Hss : 0 <= sigma_s l).
+  { unfold sigma_s. apply Rmult_le_pos; [|left; apply Rinv_0_lt_compat; exact Hn].
+    clear -Hfacts. induction l as [|c r IH]; [simpl; lra|]. simpl.
+    destruct (Hfacts c (or_introl eq_refl)) as (H1 & _ & _ & H4).
+    assert (0 <= sum (fun c0 => c_n c0 * c_ss c0) r) by (apply IH; intros c0 Hin; apply Hfacts; right; exact Hin).
+    nra. }
+  assert (HN : 0 < number_density (Q2R NAq) l (Q2R rho)).
+  { unfold number_density, cell_volume, A_per_cm. pose proof NA_pos. apply Q2R_pos in Hrho.
+    apply Rdiv_lt_0_compat; [exact Hn|]. apply Rmult_lt_0_compat; [|lra]. apply Rmult_lt_0_compat.
+    - apply Rdiv_lt_0_compat; assumption.
+    - apply Rdiv_lt_0_compat; lra. }
+  pose proof (calc_nonneg (number_density (Q2R NAq) l (Q2R rho)) (wl_R w) (b_re l) (b_im l) (sigma_s l)
+                          (Rlt_le _ _ HN) (Rlt_le _ _ Hlam) Hss) as Hcn.
+  rewrite <- (model_N_is (Q2R NAq) (Q2R rho) l) in Hcn;
+    [|apply Rgt_not_eq; exact NA_pos|apply Rgt_not_eq; apply Q2R_pos; exact Hrho|apply Rgt_not_eq; exact Hm].
+  rewrite (calc_is_spec (Q2R NAq) l (Q2R rho) (wl_R w)) in Hcn; try assumption;
+    [|exact NA_pos|apply Q2R_pos; exact Hrho|apply sum_nonpos; intros c Hin; destruct (Hfacts c Hin) as (H1 & _ & H3 & _); nra].
+  rewrite <- Heq in Hcn. unfold outs_list in Hcn. cbn [map] in Hcn. exact Hcn.
+Qed.
+
+(* ------------------------------------------------------------------ vectors *)
+(* a vector of wavelengths returns, entry by entry, the result of the scalar call *)
+Theorem vector_is_map : forall D s density natural_density ws v,
+  neutron_scattering D s density natural_density ws = OVals v ->
+  forall i w, nth_error ws i = Some w ->
+    exists o, nth_error v i = Some o /\ neutron_scattering D s density natural_density [w] = OVals [o].
+Proof.
+  intros D s density natural_density ws v H i w Hi. unfold neutron_scattering in *.
+  destruct (density_of_compound D s density natural_density) as [rho|]; [|discriminate].
+  destruct (negb (forallb (fun p => has_data D (fst p)) (atoms_of s))); [discriminate|].
+  destruct (Qeq_bool (rweight (e_mass (nd_env D)) (atoms_of s) * rho) 0); [discriminate|].
+  destruct (all_some (map (compound_at D (atoms_of s) rho) ws)) as [v'|] eqn:Ev; [|discriminate].
+  inversion H; subst v'. clear H.
+  revert i v Ev Hi. induction ws as [|w0 r IH]; intros i v Ev Hi; [destruct i; discriminate|].
+  cbn [map all_some] in Ev.
+  destruct (compound_at D (atoms_of s) rho w0) as [o0|] eqn:E0; [|discriminate].
+  destruct (all_some (map (compound_at D (atoms_of s) rho) r)) as [v'|] eqn:Er; [|discriminate].
+  inversion Ev; subst v. destruct i as [|i].
+  - inversion Hi; subst w0. exists o0. split; [reflexivity|]. cbn [map all_some]. rewrite E0. reflexivity.
+  - cbn [nth_error] in *. apply (IH i v' eq_refl Hi).
+Qed.
